@@ -1022,7 +1022,12 @@ class Crystal(object):
                                             +M[0,2]*(M[1,0]*M[2,1]-M[1,1]*M[2,0]))
 
         groupops = []
-        supercellvect = [np.array(nv) for nv in itertools.product(range(-1,2), repeat=self.dim)
+        # candidate images of the lattice vectors: integer u with u.g.u = g_dd obey |u_i| <= sqrt(g_dd (g^-1)_ii)
+        # (Cauchy-Schwarz), which is 1 for well-reduced cells but larger for skewed (noreduce) cells
+        invmetric = np.linalg.inv(self.metric)
+        gmax = max(self.metric[d, d] for d in range(self.dim))
+        nmax = [max(1, int(np.floor(np.sqrt(gmax*invmetric[i, i]) + 1e-8))) for i in range(self.dim)]
+        supercellvect = [np.array(nv) for nv in itertools.product(*[range(-n, n+1) for n in nmax])
                          if any(n != 0 for n in nv)]
         matchvect = [[u for u in supercellvect
                       if self.__isclose__(np.dot(u, np.dot(self.metric, u)),
